@@ -768,7 +768,10 @@ def es_iteration(case, es, shadow, op, where, kind, dt, tol, dim, batch, lb, ub,
             return fail("oracle", where, "solutions are not the transform of the recorded z: " + msg)
     else:
         recorded = rec
-    # ---- model: the resample loop over the same stream
+    # ---- model: the resample loop over the same stream (large configurations are driven on the
+    # implementation-side oracles only: exact rationals through dozens of LM-MA-ES direction vectors are too slow)
+    if case.get("no_model"):
+        return tell_part(case, es, op, where, kind, sols, recorded, before, tol, dim, batch, adam_ref, mirror)
     r = ask_model(req + " rounds=" + stream_str(rounds))
     if "err" in r:
         return fail("corr", where, f"model ask failed ({r['err']}) on a stream the implementation consumed "
@@ -781,6 +784,10 @@ def es_iteration(case, es, shadow, op, where, kind, dt, tol, dim, batch, lb, ub,
     msg = close(f"{kind}.ask-record", recorded, prows(r["draws"], dim), max(1.0, amax(recorded)), tol)
     if msg:
         return fail("corr", where, "recorded draws: " + msg)
+    return tell_part(case, es, op, where, kind, sols, recorded, before, tol, dim, batch, adam_ref, mirror)
+
+
+def tell_part(case, es, op, where, kind, sols, recorded, before, tol, dim, batch, adam_ref, mirror):
     # ---- tell
     if op.get("perm") is not None:
         perm = [int(i) for i in op["perm"]]
@@ -898,6 +905,8 @@ def cma_like_tell(case, es, kind, before, sols, recorded, perm, mu, where, tol, 
         if np.any(m < lo - tol * S * 4) or np.any(m > hi + tol * S * 4):
             return fail("oracle", where, "new mean outside the coordinate hull of the parents")
     # ---- model
+    if case.get("no_model"):
+        return None
     if mu > 0:
         lh, ls = float(np.log(mu + 0.5)), np.log(np.arange(1, mu + 1))
     else:
@@ -1081,6 +1090,8 @@ def openai_tell(case, es, before, noise, perm, where, tol, dim, batch, ref, mirr
         return fail("oracle", where, "theta is not the Adam ascent step along the rank-normalised gradient estimate "
                     "(best rank +1/2): " + msg)
     # ---- model
+    if case.get("no_model"):
+        return None
     head = (f"openai-tell n={dim} batch={batch} sigma0={fq(sig)} mirror={int(mirror)} {adam_tokens(cfg)} "
             f"theta={qv(theta_b)} m={','.join(ref['mm'])} v={','.join(ref['mv'])} t={ref['mt']} "
             f"noise={qrows(noise)} perm={nl(perm)}")
@@ -1193,11 +1204,23 @@ class GradTrack:
             return fail("oracle", where, "after reset the next step differs from a fresh optimizer's")
         return None
 
-    def step(self, where, g):
+    def step(self, where, g, g_obj=None):
+        """`g_obj` is what the caller passes (list of ints, int32 / int64 / float array); `g` its float64 values"""
         case, dim, tol = self.case, self.dim, TOL[F64]
         opt = self.opt
         prev = np.array(opt.theta, dtype=np.float64)
-        opt.step(g)
+        g_obj = g if g_obj is None else g_obj
+        g_fp = fingerprint(g_obj) if isinstance(g_obj, (np.ndarray, list, tuple)) else None
+        try:
+            opt.step(g_obj)
+        except Exception as e:  # pylint: disable=broad-except
+            kind_ = type(g_obj).__name__ + (f"[{g_obj.dtype}]" if isinstance(g_obj, np.ndarray) else
+                                            f"[{type(g_obj[0]).__name__}]" if len(g_obj) else "")
+            return Failure("oracle", f"{where}: step() raised {type(e).__name__} for a gradient passed as {kind_} "
+                           f"{np.asarray(g_obj).tolist()} ('every gradient sequence'): {str(e)[:160]}",
+                           key="D45-adam-integer-gradient" if "int" in kind_ else None)
+        if g_fp is not None and fingerprint(g_obj) != g_fp:
+            return fail("oracle", where, "step() modified the caller's gradient object")
         th = np.asarray(opt.theta, dtype=np.float64)
         if not np.all(np.isfinite(th)):
             return fail("oracle", where, "theta not finite")
@@ -1297,7 +1320,18 @@ def run_grad_case(case):
                                 "same theta0 array")
             continue
         g = np.array(op["g"], dtype=np.float64)
-        f = tr.step(where, g) or start.changed(where, "step")
+        gt = op.get("gtype", "f64")
+        if gt == "intlist":
+            g_obj = [int(x) for x in op["g"]]
+        elif gt in ("int32", "int64"):
+            g_obj = np.array([int(x) for x in op["g"]], dtype=gt)
+        elif gt == "floatlist":
+            g_obj = [float(x) for x in op["g"]]
+        else:
+            g_obj = g
+        if gt != "f64":
+            count(f"gradopt:gradient-as-{gt}")
+        f = tr.step(where, g, g_obj) or start.changed(where, "step")
         if f:
             return f
         # a call on one optimizer must not move another optimizer built from the same start array
@@ -1509,6 +1543,14 @@ def gen_grad(quick=True):
                 else:
                     ops.append({"op": "reset", "same": False, "who": who,
                                 "theta0": [dyadic(rng, -4, 4, 16) for _ in range(dim)]})
+            elif rng.random() < 0.2:
+                # integer-typed gradient (list of ints, int32 / int64 array) or a plain list of floats
+                gt = rng.choice(["intlist", "int32", "int64", "floatlist"])
+                if gt == "floatlist" and not exact:
+                    ops.append({"op": "step", "who": who, "gtype": gt, "g": [rng.gauss(0, 1) for _ in range(dim)]})
+                else:
+                    ops.append({"op": "step", "who": who, "gtype": gt,
+                                "g": [float(rng.randint(-4, 4)) for _ in range(dim)]})
             elif exact:
                 ops.append({"op": "step", "who": who, "g": [dyadic(rng, -4, 4, 16) for _ in range(dim)]})
             else:
@@ -1649,6 +1691,106 @@ def run_pycma_converge(case):
     return None
 
 
+def gen_lm_large(quick=True):
+    """LM-MA-ES at the scale it is meant for: dimension 40..56, batch (= number of direction vectors) 33..44, run
+    for 36..48 generations without a reset, so that every learning rate cd[i], cc[i] up to i = n_vectors - 1 is used
+    (4**i, 1.5**i beyond the int64 / float32 comfort zone).  The learning rates are compared with the model at
+    reset; the iterations run on the implementation-side oracles only (`no_model`)."""
+    def gen(rng):
+        dim = rng.randint(40, 56)
+        batch = rng.randint(33, min(44, dim))
+        sigma0 = rng.choice([0.5, 1.0])
+        x0 = [dyadic(rng, -2, 2, 8) for _ in range(dim)]
+        bounded = rng.random() < 0.3
+        lb = [x - 6 * sigma0 for x in x0] if bounded else [None] * dim
+        ub = [x + 6 * sigma0 for x in x0] if bounded else [None] * dim
+        n_iter = rng.randint(36, 48)
+        ops = []
+        quad = [x + 1.0 for x in x0]
+        for _ in range(n_iter):
+            mu = rng.choice([batch // 2, batch // 2, batch // 4, batch])
+            if rng.random() < 0.7:
+                ops.append({"op": "iter", "perm": None, "quad": quad, "mu": mu, "vseed": rng.randrange(1 << 30)})
+            else:
+                perm = list(range(batch))
+                rng.shuffle(perm)
+                ops.append({"op": "iter", "perm": perm, "mu": mu, "vseed": rng.randrange(1 << 30)})
+        return {"kind": "lm", "dim": dim, "batch": batch, "dtype": F64 if rng.random() < 0.7 else F32,
+                "seed": rng.randrange(1 << 31), "sigma0": sigma0, "x0": x0, "lb": lb, "ub": ub,
+                "layout": "box" if bounded else "none", "x0_layout": "exact", "no_model": True, "ops": ops}
+    return gen
+
+
+def gen_recorded_f32(quick=True):
+    """the strategies that keep a per-row record of their draws (LM-MA-ES `_solution_z`, OpenAI-ES `noise`), in
+    float32 with a box tight enough that rows are rejected and resampled"""
+    def gen(rng):
+        kind = rng.choice(["lm", "openai"])
+        dim = rng.randint(2, 5)
+        batch = rng.randint(2, dim) if kind == "lm" else rng.randint(3, 8)
+        sigma0 = rng.choice([0.5, 1.0, 2.0])
+        x0 = [dyadic(rng, -2, 2, 8) for _ in range(dim)]
+        lb = [math.floor((x - rng.choice([0.75, 1.0, 1.5]) * sigma0) * 16) / 16 for x in x0]
+        ub = [math.ceil((x + rng.choice([0.75, 1.0, 1.5]) * sigma0) * 16) / 16 for x in x0]
+        case = {"kind": kind, "dim": dim, "batch": batch, "dtype": F32, "seed": rng.randrange(1 << 31),
+                "sigma0": sigma0, "x0": x0, "lb": lb, "ub": ub, "layout": "box",
+                "x0_layout": rng.choice(["exact", "exact", "wider"]),
+                "ops": gen_perm_ops(rng, batch, rng.randint(2, 6) if quick else rng.randint(4, 20), dim, 2,
+                                    reset_p=0.0)}
+        for op in case["ops"]:
+            op["mu"] = max(op["mu"], 1)
+        if kind == "openai":
+            case["mirror"] = False
+            case["adam"] = {"lr": 0.01, "beta1": 0.9, "beta2": 0.999, "epsilon": 1e-8, "l2_coeff": 0.0}
+        return case
+    return gen
+
+
+D50_KEY = "D50-lm-ma-es-batch-equals-dim"
+
+
+def gen_lm_degenerate(quick=True):
+    def gen(rng):  # one deterministic case (the emitter's default batch size at solution_dim = 10)
+        return {"kind": "lm-degenerate", "dim": 10, "batch": 10, "seed": 1, "sigma0": 1.0, "x0": [100.0] * 10,
+                "ops": [{"op": "run", "gens": 60}]}
+    return gen
+
+
+def run_lm_degenerate(case):
+    """LM-MA-ES fed the true ranks of the sphere must approach the optimum and keep a usable step size.  With
+    batch_size == solution_dim, csigma = 2*batch/dim = 2: the factor sqrt(mueff*cs*(2-cs)) of the path update is 0,
+    ps stays exactly 0 and sigma is multiplied by exp(-1) on every tell whatever the ranking (open finding D50)."""
+    from ribs.emitters.opt import LMMAEvolutionStrategy
+    warnings.simplefilter("ignore")
+    dim, batch = case["dim"], case["batch"]
+    gens = int(case["ops"][0]["gens"]) if case["ops"] else 60
+    x0 = np.array(case["x0"], dtype=np.float64)
+    d0 = float(np.linalg.norm(x0))
+
+    def drive(order):
+        es = LMMAEvolutionStrategy(case["sigma0"], dim, batch, seed=case["seed"])
+        es.reset(np.array(x0))
+        ps_zero = True
+        for _ in range(gens):
+            X = np.array(es.ask(), dtype=np.float64)
+            f = -np.sum(X**2, axis=1)
+            idx = np.argsort(-f, kind="stable")
+            es.tell(idx if order == "true" else idx[::-1], f, batch // 2)
+            ps_zero = ps_zero and not np.any(es.ps)
+        return es, ps_zero
+    es, ps_zero = drive("true")
+    sigma, dist = float(es.sigma), float(np.linalg.norm(es.mean))
+    if dist < 0.5 * d0 and sigma > 0:
+        return None  # moved at least half way within the budget: not the degenerate behaviour
+    es2, _ = drive("reversed")
+    same = float(es2.sigma) == sigma
+    return Failure("oracle", f"LMMAEvolutionStrategy(sigma0={case['sigma0']}, solution_dim={dim}, batch_size={batch}) "
+                   f"(csigma = {float(es.csigma)}): true ranks of the sphere from x0 = {case['x0'][0]}*ones({dim}): after "
+                   f"{gens} generations sigma = {sigma:.3g} and |mean| = {dist:.4g} (start {d0:.4g}): no convergence; "
+                   f"ps stayed exactly 0: {ps_zero}; sigma identical under the reversed ranking: {same}",
+                   key=D50_KEY if batch == dim else None)
+
+
 def nontrivial_any(case):
     return True
 
@@ -1732,6 +1874,8 @@ def run_case(case):
         return run_pycma_case(case)
     if kind == "pycma-converge":
         return run_pycma_converge(case)
+    if kind == "lm-degenerate":
+        return run_lm_degenerate(case)
     raise ValueError(kind)
 
 
@@ -1745,6 +1889,9 @@ def strata(quick):
         ("sepcma", gen_es("sep", False, quick), nontrivial_es, 40, 1000, 1.2),
         ("cma", gen_es("cma", False, quick), nontrivial_es, 40, 1000, 1.6),
         ("lowdim-many-parents", gen_lowdim(quick), nontrivial_es, 10, 400, 0.8),
+        ("lmma-large", gen_lm_large(quick), nontrivial_es, 3, 60, 0.5),
+        ("recorded-f32-bounded", gen_recorded_f32(quick), nontrivial_es, 8, 300, 0.4),
+        ("lmma-batch-equals-dim", gen_lm_degenerate(quick), nontrivial_any, 1, 1, 0.1),
         ("pycma", gen_pycma(quick), nontrivial_es, 12, 400, 0.5),
         ("pycma-converge", gen_pycma_converge(quick), nontrivial_any, 6, 120, 0.6),
     ]
